@@ -442,7 +442,9 @@ func runConc(args []string) string {
 				if cyclic {
 					return out + "#cyclic"
 				}
-				if err := ogorek.NewEncoderWithConfig(&b, &ogorek.EncoderConfig{Protocol: proto}).Encode(shared); err == nil {
+				// same StrictUnicode as the Decoder: otherwise str and ByteString keys of a Dict merge on the
+				// way back and which one survives depends on the (random) iteration order, not on concurrency
+				if err := ogorek.NewEncoderWithConfig(&b, &ogorek.EncoderConfig{Protocol: proto, StrictUnicode: cfg.StrictUnicode}).Encode(shared); err == nil {
 					d2, _ := ogorek.NewDecoderWithConfig(&b, cfg).Decode()
 					out += "#" + dumpVal(d2)
 				} else {
